@@ -259,6 +259,20 @@ def run_case(desc):
         # up by its own label must still find that app first.
         lab.psig.get_app_sig('app1').legacy_app_label = 'app2'
         reused = True
+    on_migrations = False
+    if desc.get('mode') == 'walk' and not reused and desc['i'] % 2 == 1 \
+            and edits and all(e['app'] == 'app1' and e['op'] != 'rename_app'
+                              for e in edits) and any(
+                (f.get('to') or '').startswith('app1.')
+                for ms in spec0.get('app2', {}).values()
+                for _n, f in ms['fields']):
+        # app2 has been handed over to Django migrations (its stored
+        # signature says so) and refers to models of app1, which keeps
+        # evolving: its references must be rewritten all the same
+        from django_evolution.consts import UpgradeMethod
+        lab.psig.get_app_sig('app2').upgrade_method = \
+            UpgradeMethod.MIGRATIONS
+        on_migrations = True
     history = [spec0]
     for e in edits:
         history.append(E.apply_edit(history[-1], e))
@@ -308,6 +322,7 @@ def run_case(desc):
             items.append(it)
     stats['sig_walks'] = walker.walks
     stats['reused_label_cases'] = int(reused)
+    stats['referrer_on_migrations_cases'] = int(on_migrations)
     stats['refs_checked'] = walker.refs_checked
     if ok:
         got = lab.snapshot()
